@@ -71,7 +71,7 @@ python3 - "$D" "[${res%,}]" <<'PY'
 import json,sys
 d=sys.argv[1]; runs=json.loads(sys.argv[2])
 a=json.load(open(d+'/meta.agent.json'))
-m={"property":a.get("property"),"summary":a.get("summary"),"needs_to_manifest":a.get("needs_to_manifest"),"files_touched":a.get("files_touched"),
+m={"property":a.get("property"),"summary":a.get("summary"),"needs_to_manifest":a.get("needs_to_manifest") or a.get("needs"),"files_touched":a.get("files_touched"),
    "origin":"written by a fresh sub-agent that saw only the property text and a scratch worktree of /repo",
    "confirmed":"in the scratch worktree: existing suite passes with the patch, demo fails with the patch, demo passes without it",
    "what_i_ran":runs,"caught_by":[r["check"]+"/"+r["tier"] for r in runs if r["exit"]==1]}
